@@ -34,6 +34,9 @@ import LinVerif.Lemmas.C11Groups
 import LinVerif.Lemmas.C11Sorted
 import LinVerif.Lemmas.C11Sources
 import LinVerif.Lemmas.C11Block
+import LinVerif.Lemmas.C11BlockRT
+import LinVerif.Lemmas.C11Pending
+import LinVerif.Model.C11FlushFault
 import LinVerif.Generated.C11
 import LinVerif.Driver.C11
 
@@ -1199,6 +1202,89 @@ theorem block_series_entry_roundtrip (e : Enc) (hu : ∀ n, 0 < e.uvarLen n) (nf
   simp only [w1, w2, h2]
   exact this
 
+open LinVerif.BlockLayout LinVerif.Lemmas.C11Block LinVerif.Lemmas.C11BlockRT in
+/-- WHOLE-BLOCK ROUND TRIP (round 9; the bucket / high-key level, full strength). For ANY metric
+block — any number of fields, any strictly ascending series ids (the flusher is driven in bitmap
+order) over ANY number of roaring containers, any data lengths, series without any `FlushField`
+call in between, any codec lengths (uvarint non-empty, a non-empty offset list encodes to a
+non-empty block) — every field block of every series with data is recorded as written
+(`PrepareMetric`, all `FlushSeries`, the bucket footer of `CommitMetric`) and is found again by
+`metricReader.Load` → `metricLoader.Load` → `readSeriesData` (container index, high-key offsets,
+position word, low-key offsets, entry, field offsets) exactly where it was written. `none` only for
+a series whose field data are ALL empty (a multi-field entry without data: `fieldOffsetsAt <= 0`; a
+one-field bucket without a single byte gets no footer and is skipped) — nothing is lost.
+Proof: invariant `J` (`Lemmas/C11BlockRT.lean`): completed buckets carry read certificates that are
+stable because the tables are append-only, the open bucket's low-key offsets are the prefix sums of
+its entry lengths from `Level3.startAt`; closing a bucket turns the latter into the former. -/
+theorem block_roundtrip (e : Enc) (hu : ∀ n, 0 < e.uvarLen n) (ho : ∀ xs, xs ≠ [] → 0 < e.offLen xs)
+    (nf : Nat) (hnf : 1 ≤ nf) (series : List (Nat × List Nat))
+    (hasc : series.Pairwise (fun a b => a.1 < b.1))
+    (hlen : ∀ s, s ∈ series → s.2 = [] ∨ s.2.length = nf)
+    (s : Nat × List Nat) (hs : s ∈ series) (hdata : s.2 ≠ []) (k : Nat) (hk : k < nf) :
+    (∃ a, written (flushBlock ⟨true⟩ e nf series) s.1 k = some (a + sumL (s.2.take k), s.2.getD k 0)) ∧
+    (readField (flushBlock ⟨true⟩ e nf series) s.1 k = written (flushBlock ⟨true⟩ e nf series) s.1 k ∨
+     (readField (flushBlock ⟨true⟩ e nf series) s.1 k = none ∧ sumL s.2 = 0)) :=
+  block_roundtrip_core e hu ho nf hnf series hasc hlen s hs hdata k hk
+
+open LinVerif.BlockLayout LinVerif.Lemmas.C11Block LinVerif.Lemmas.C11BlockRT in
+/-- a series with at least one data byte is read back, every field, where it was written. -/
+theorem block_roundtrip_data (e : Enc) (hu : ∀ n, 0 < e.uvarLen n) (ho : ∀ xs, xs ≠ [] → 0 < e.offLen xs)
+    (nf : Nat) (hnf : 1 ≤ nf) (series : List (Nat × List Nat))
+    (hasc : series.Pairwise (fun a b => a.1 < b.1))
+    (hlen : ∀ s, s ∈ series → s.2 = [] ∨ s.2.length = nf)
+    (s : Nat × List Nat) (hs : s ∈ series) (hdata : 0 < sumL s.2) (k : Nat) (hk : k < nf) :
+    ∃ a, readField (flushBlock ⟨true⟩ e nf series) s.1 k = some (a + sumL (s.2.take k), s.2.getD k 0) := by
+  have hne : s.2 ≠ [] := by
+    intro h; rw [h] at hdata; simp [sumL] at hdata
+  obtain ⟨⟨a, ha⟩, h | h⟩ := block_roundtrip e hu ho nf hnf series hasc hlen s hs hne k hk
+  · exact ⟨a, by rw [h, ha]⟩
+  · omega
+
+open LinVerif.BlockLayout LinVerif.Lemmas.C11Block LinVerif.Lemmas.C11BlockRT in
+/-- the executable check the driver prints for op `blk` (and the harness compares with the real
+flusher / reader) never reports a lost series: `lostSeries` is empty for EVERY block. -/
+theorem block_no_lost_series (e : Enc) (hu : ∀ n, 0 < e.uvarLen n) (ho : ∀ xs, xs ≠ [] → 0 < e.offLen xs)
+    (nf : Nat) (hnf : 1 ≤ nf) (series : List (Nat × List Nat))
+    (hasc : series.Pairwise (fun a b => a.1 < b.1))
+    (hlen : ∀ s, s ∈ series → s.2 = [] ∨ s.2.length = nf) :
+    lostSeries ⟨true⟩ e nf series = [] := by
+  unfold lostSeries
+  simp only [List.map_eq_nil_iff, List.filter_eq_nil_iff]
+  intro s hs
+  by_cases hne : s.2 = []
+  · simp [hne]
+  · have hl : s.2.length = nf := by
+      rcases hlen s hs with h | h
+      · exact absurd h hne
+      · exact h
+    have hok : seriesOK (flushBlock ⟨true⟩ e nf series) s = true := by
+      unfold seriesOK
+      rw [List.all_eq_true]
+      intro k hkm
+      have hk : k < nf := by rw [← hl]; simpa using hkm
+      obtain ⟨⟨a, ha⟩, h | ⟨h, hz⟩⟩ := block_roundtrip e hu ho nf hnf series hasc hlen s hs hne k hk
+      · rw [h, ha]; simp
+      · rw [h, ha]
+        have hall : ∀ (xs : List Nat), sumL xs = 0 → ∀ y, y ∈ xs → y = 0 := by
+          intro xs
+          induction xs with
+          | nil => simp
+          | cons x xs ih =>
+            intro h0 y hy
+            simp [sumL] at h0
+            rcases List.mem_cons.mp hy with h1 | h1
+            · omega
+            · exact ih (by omega) y h1
+        have hk' : k < s.2.length := by omega
+        have hget : s.2.getD k 0 = 0 := by
+          simp [List.getD_eq_getElem?_getD, hk']
+          exact hall s.2 hz _ (List.getElem_mem hk')
+        simp only [hget]
+        simp
+        intro y hy
+        exact hall s.2 hz y hy
+    simp [hok]
+
 open LinVerif.BlockLayout LinVerif.Lemmas.C11Block in
 /-- non-vacuity + the whole block, executable: five series in three containers (65535 | 65536,
 65537 | 131072, 131073), three fields, one series without any data and one with an empty field:
@@ -1276,6 +1362,161 @@ of any number of loaders (the repaired code; full strength over schedules). -/
 theorem loaders_with_own_entries_read_own_page (sched : List LStep) (h : resetBeforeRead sched [] = true) :
     ∀ p, p ∈ runLoaders false sched (fun _ => none) [] → p.2 = some p.1 :=
   runLoaders_own_aux sched _ [] [] (by simp) (by simp) h
+
+/-! ## the pending-load protocol: grouping stage → data-load stages → leaf reduce (round 9)
+
+`Model/C11Pending.lean`: one thread per data-load stage (time segment); its atomic steps are its
+`dataLoad` operators (each leaves by one of the three return statements) and then its `leafReduce`
+(`if PendingDataLoadTasks.Load() == 0 { Reduce }`); the counter was set to the number of all filter
+result sets by the grouping stage before any stage ran. The theorems are about the variant the
+source has (`Generated.C11.dataLoadDecDeferred`, pinned by `pending_protocol_tie`) and quantify over
+ALL schedules (lists of stage indices, any length, stutter included), any number of stages, any
+number of loads per stage and EVERY placement of the early returns. -/
+
+open LinVerif.C11Pending LinVerif.Lemmas.C11Pending in
+/-- tie: the decrement is the deferred first statement of `dataLoad.Execute` (the model's variant
+flag), the function has exactly the three return paths the model's `Outcome` lists, `leafReduce`
+tests the counter for 0 and only then reduces, the grouping stage adds one unit per filter result
+set for every segment, and a data-load stage runs one `dataLoad` per filter result set and then
+`leafReduce`. -/
+theorem pending_protocol_tie :
+    Generated.C11.dataLoadDecDeferred = true ∧
+    Generated.C11.dataLoadReturns =
+      ["if roaring.FastAnd(seriesIDs, op.rs.SeriesIDs()).IsEmpty() => return nil",
+       "if loader == nil => return nil", "return nil"] ∧
+    Generated.C11.leafReduceGuard = "op.executeCtx.PendingDataLoadTasks.Load() == 0" ∧
+    Generated.C11.leafReduceGuarded = ["op.executeCtx.Reduce(op.leafExecuteCtx.ReduceCtx.Reduce)"] ∧
+    Generated.C11.leafReduceRest = ["return nil"] ∧
+    Generated.C11.groupingNextStagesLoop =
+      ["for segmentIdx := range timeSegments", "dataLoadCtx := *dlCtx",
+       "stages = append(stages, NewDataLoadStage(stage.leafExecuteCtx, &dataLoadCtx, timeSegments[segmentIdx]))",
+       "stage.executeCtx.PendingDataLoadTasks.Add(int32(len(timeSegments[segmentIdx].FilterRS)))"] ∧
+    Generated.C11.dataLoadStagePlanChildren =
+      ["for idx := range stage.segmentRS.FilterRS => execPlan.AddChild(NewPlanNode(operator.NewDataLoad(stage.executeCtx, stage.segmentRS, stage.segmentRS.FilterRS[idx])))",
+       "execPlan.AddChild(NewPlanNode(operator.NewLeafReduce(stage.leafExecuteCtx, stage.executeCtx)))"] := by
+  refine ⟨rfl, rfl, rfl, rfl, rfl, rfl, rfl⟩
+
+open LinVerif.C11Pending LinVerif.Lemmas.C11Pending in
+/-- NEVER PREMATURE: under every schedule, whenever a `leafReduce` calls `Reduce`, every `dataLoad`
+of every stage has finished — whichever loads returned early (the counter is exactly the number of
+loads that have not finished). The answer is never reduced from a part of the sources. -/
+theorem leaf_reduce_not_premature (stages : List (List Outcome)) (sched : List Nat) :
+    (run Generated.C11.dataLoadDecDeferred (init stages) sched).premature = false :=
+  (inv_run sched _ (inv_init stages)).notPremature
+
+open LinVerif.C11Pending LinVerif.Lemmas.C11Pending in
+/-- ALWAYS REDUCED: under every schedule that lets every stage finish, `Reduce` has been called —
+the stage whose `leafReduce` comes last sees the counter at 0, for EVERY placement of early returns. -/
+theorem leaf_reduce_fires (stages : List (List Outcome)) (hne : stages ≠ []) (sched : List Nat)
+    (hfin : finished (run Generated.C11.dataLoadDecDeferred (init stages) sched) = true) :
+    1 ≤ (run Generated.C11.dataLoadDecDeferred (init stages) sched).fired := by
+  have hI := inv_run sched _ (inv_init stages)
+  apply hI.fires
+  · intro h
+    have := run_len true sched (init stages)
+    rw [h] at this
+    simp [init] at this
+    exact hne (List.eq_nil_of_length_eq_zero this.symm)
+  · intro i g hg
+    unfold finished at hfin
+    rw [List.all_eq_true] at hfin
+    have := hfin g (List.mem_of_getElem? hg)
+    simp at this
+    exact this.2
+
+open LinVerif.C11Pending LinVerif.Lemmas.C11Pending in
+/-- EXACTLY ONCE for a query over one time segment (one data-load stage), every schedule, every
+placement of early returns. (With several segments more than one `leafReduce` can see 0 — the
+example below — and each later `Reduce` finds the aggregators reset.) -/
+theorem leaf_reduce_exactly_once_one_segment (loads : List Outcome) (sched : List Nat)
+    (hfin : finished (run Generated.C11.dataLoadDecDeferred (init [loads]) sched) = true) :
+    (run Generated.C11.dataLoadDecDeferred (init [loads]) sched).fired = 1 := by
+  have h1 := leaf_reduce_fires [loads] (by simp) sched hfin
+  have h2 := fired_le_run Generated.C11.dataLoadDecDeferred sched (init [loads]) (by simp [init])
+  have h3 := sumM_le_length (run Generated.C11.dataLoadDecDeferred (init [loads]) sched).stages
+  rw [run_len] at h3
+  have h4 : (init [loads]).stages.length = 1 := rfl
+  omega
+
+open LinVerif.C11Pending LinVerif.Lemmas.C11Pending in
+/-- non-vacuity / behaviour of the model on concrete schedules: two segments, early returns of both
+kinds; the one-worker schedule reduces once (in the last stage); when both stages finish their loads
+before either `leafReduce` runs, both see 0. -/
+example :
+    let stages := [[Outcome.noSeries, Outcome.loaded], [Outcome.nilLoader]]
+    finished (run true (init stages) (seqSched 0 stages)) = true ∧
+    (run true (init stages) (seqSched 0 stages)).fired = 1 ∧
+    (run true (init stages) [0, 1, 0, 0, 1]).fired = 2 ∧
+    (run true (init stages) [0, 1, 0, 0, 1]).premature = false := by decide
+
+/-! ## fault path on the write side: a failed flush (round 9)
+
+`Model/C11FlushFault.lean`: after `flushMemoryDatabase` failed, `dataFamily.Flush` returns BEFORE it
+resets `immutableMemDB`; `Filter` keeps reading it. (A family in that state is the `Window` state of
+`query_eq_naive_in_flush_window_partial`: immutable memory database + new mutable one + the files
+committed before.) The skip guard of `Flush` then refuses every later flush of the family. -/
+
+open LinVerif.C11FlushFault in
+/-- tie: the reset of `immutableMemDB` comes after the error return of `flushMemoryDatabase`; the
+skip guard; every error path of `fileFilter` (a reader's open / filter error is handed to the
+query, only not-found is "no data"; `reader.Get` failing skips the file). -/
+theorem flush_fault_tie :
+    Generated.C11.familyFlushAfterWrite =
+      ["if err := f.flushMemoryDatabase(immutableSeq, waitingFlushMemDB); err != nil { return err }",
+       "f.immutableMemDB = nil"] ∧
+    Generated.C11.familyFlushSkipGuard =
+      "f.immutableMemDB != nil || f.mutableMemDB == nil || f.mutableMemDB.NumOfSeries() == 0" ∧
+    Generated.C11.familyFileFilterErrPaths =
+      ["if err != nil => return nil, err", "if err0 != nil => continue", "if err != nil => return nil, err",
+       "if err != nil && errors.Is(err, constants.ErrNotFound) => return nil, nil", "return resultSet, err"] := by
+  refine ⟨rfl, rfl, rfl⟩
+
+open LinVerif.C11FlushFault in
+theorem visible_run (ops : List C11FlushFault.Op) : ∀ (f : Fam),
+    visible (run true f ops) = visible f ++ written ops := by
+  induction ops with
+  | nil => intro f; simp [run, written]
+  | cons op ops ih =>
+    intro f
+    have hr : run true f (op :: ops) = run true (step true f op) ops := rfl
+    rw [hr, ih]
+    cases op with
+    | write p => simp [step, visible, written]
+    | flush fails =>
+      simp only [written]
+      congr 1
+      unfold step
+      cases hi : f.imm with
+      | some l => simp
+      | none =>
+        by_cases hm : f.mem = []
+        · simp [hm]
+        · cases fails <;> simp [hm, visible, hi]
+
+open LinVerif.C11FlushFault in
+/-- ACCEPTED POINTS STAY VISIBLE over every history of writes and flushes, any of which may fail:
+what the family's filter can see (files, immutable, mutable) is exactly the written points, in
+write order. The seeded change c11-22 (reset also after a failure) falsifies it: `Neg.` below. -/
+theorem failed_flush_keeps_points (ops : List C11FlushFault.Op) : visible (run true {} ops) = written ops := by
+  rw [visible_run]; simp [visible]
+
+open LinVerif.C11FlushFault in
+/-- … and the price in the current code: once a flush failed, NO later flush of the family writes a
+file (the skip guard `immutableMemDB != nil`; the failed flush is not retried). Stated as what the
+model does, not as a property the code should have. -/
+theorem failed_flush_blocks_later_flushes (ops : List C11FlushFault.Op) : ∀ (f : Fam) (l : List Nat), f.imm = some l →
+    (run true f ops).files = f.files ∧ (run true f ops).imm = some l := by
+  induction ops with
+  | nil => intro f l h; exact ⟨rfl, h⟩
+  | cons op ops ih =>
+    intro f l h
+    have hr : run true f (op :: ops) = run true (step true f op) ops := rfl
+    rw [hr]
+    cases op with
+    | write p => exact ih _ l (by simp [step, h])
+    | flush fails =>
+      have : step true f (.flush fails) = f := by simp [step, h]
+      rw [this]; exact ih f l h
 
 /-! ## proved negations (witnesses replayed against the implementation on every run) -/
 
@@ -1429,6 +1670,34 @@ theorem shared_field_entry_reads_other_series :
     runLoaders true [.reset 0, .reset 1, .read 0, .read 1] (fun _ => none) [] = [(0, some 1), (1, some 1)] ∧
     runLoaders false [.reset 0, .reset 1, .read 0, .read 1] (fun _ => none) [] = [(0, some 0), (1, some 1)] := by
   decide
+
+/-! ### the pending counter without the defer (seeded c11-13 / c11-21); reset after a failed flush (c11-22) -/
+
+open LinVerif.C11Pending LinVerif.Lemmas.C11Pending in
+/-- without the defer, ONE early return anywhere — any stage, any position, either kind — and no
+`leafReduce` ever reduces, under every schedule: the leaf answers nothing. -/
+theorem no_defer_any_early_return_never_reduces (stages : List (List Outcome))
+    (hE : 1 ≤ sumM earlyLeft (init stages).stages) (sched : List Nat) :
+    (run false (init stages) sched).fired = 0 := by
+  have h0 : InvN (sumM earlyLeft (init stages).stages) (init stages) := by
+    refine ⟨?_, rfl⟩
+    show ((remaining (init stages).stages : Nat) : Int) = _
+    rw [split_loads]; omega
+  exact (invN_run _ hE sched _ h0).fired
+
+open LinVerif.C11Pending in
+/-- the witness of c11-21: one segment, one source whose series all dropped out at grouping. -/
+theorem no_defer_witness :
+    finished (run false (init [[Outcome.noSeries, Outcome.loaded]]) [0, 0, 0]) = true ∧
+    (run false (init [[Outcome.noSeries, Outcome.loaded]]) [0, 0, 0]).fired = 0 ∧
+    (run true (init [[Outcome.noSeries, Outcome.loaded]]) [0, 0, 0]).fired = 1 := by decide
+
+open LinVerif.C11FlushFault in
+/-- c11-22: resetting the immutable memory database after a FAILED flush loses the accepted points. -/
+theorem reset_after_failed_flush_loses_points :
+    visible (run false {} [.write 1, .write 2, .flush true, .write 3]) = [3] ∧
+    written [.write 1, .write 2, .flush true, .write 3] = [1, 2, 3] ∧
+    visible (run true {} [.write 1, .write 2, .flush true, .write 3]) = [1, 2, 3] := by decide
 
 end Neg
 
